@@ -582,3 +582,176 @@ Proof.
     assert (nth_error ts j = None) as -> by (now apply nth_error_None).
     rewrite nth_error_map. assert (nth_error ts j = None) as -> by (now apply nth_error_None). reflexivity.
 Qed.
+
+(* ------------------------------------------------------------------ *)
+(* no key is visited twice; every run is in key order                   *)
+(* ------------------------------------------------------------------ *)
+Definition rems (ts : list task) : list entry := concat (map rem_entries ts).
+
+Lemma rems_app a b : rems (a ++ b) = rems a ++ rems b.
+Proof. unfold rems. now rewrite map_app, concat_app. Qed.
+
+(* [sub_perm a b]: the elements of [a], with multiplicity, are among those of [b] *)
+Definition sub_perm {A} (a b : list A) : Prop := exists c, Permutation (a ++ c) b.
+
+Lemma sub_perm_refl {A} (a : list A) : sub_perm a a.
+Proof. exists []. now rewrite app_nil_r. Qed.
+Lemma sub_perm_nodup {A} (a b : list A) : sub_perm a b -> NoDup b -> NoDup a.
+Proof.
+  intros [c Hp] Hn. apply Permutation_sym in Hp. apply (Permutation_NoDup Hp) in Hn.
+  clear Hp. induction a as [|x a IH]; [constructor|]. cbn [app] in Hn. inversion Hn; subst.
+  constructor; [|auto]. intros Hi. apply H1. apply in_or_app. now left.
+Qed.
+Lemma sub_perm_app {A} (a a' b b' : list A) : sub_perm a a' -> sub_perm b b' -> sub_perm (a ++ b) (a' ++ b').
+Proof.
+  intros [c Hc] [d Hd]. exists (c ++ d).
+  transitivity ((a ++ c) ++ (b ++ d)); [|now apply Permutation_app].
+  rewrite <- !app_assoc. apply Permutation_app_head. rewrite !app_assoc. apply Permutation_app_tail.
+  apply Permutation_app_comm.
+Qed.
+Lemma sub_perm_trans {A} (a b c : list A) : sub_perm a b -> sub_perm b c -> sub_perm a c.
+Proof.
+  intros [x Hx] [y Hy]. exists (x ++ y). rewrite app_assoc. transitivity (b ++ y); [|assumption].
+  now apply Permutation_app_tail.
+Qed.
+Lemma sub_perm_skipn {A} n (l : list A) : sub_perm (skipn n l) l.
+Proof. exists (firstn n l). rewrite <- (firstn_skipn n l) at 3. apply Permutation_app_comm. Qed.
+Lemma sub_perm_perm {A} (a b : list A) : Permutation a b -> sub_perm a b.
+Proof. intros Hp. exists []. now rewrite app_nil_r. Qed.
+
+Lemma rems_child a cs : rems (child_tasks a cs) = concat (map contents cs).
+Proof.
+  induction cs as [|c cs IH]; [reflexivity|]. unfold child_tasks in *. cbn [flat_map map concat].
+  rewrite rems_app, IH. destruct c; unfold rems, rem_entries; cbn [map concat tsub tdone skipn app]; rewrite ?app_nil_r; reflexivity.
+Qed.
+
+Lemma split_rems tk : sub_perm (rems (split tk)) (rem_entries tk).
+Proof.
+  assert (rems [tk] = rem_entries tk) as E1 by (unfold rems; cbn; now rewrite app_nil_r).
+  unfold split. destruct (tsub tk) as [|k v|lbl lf l r] eqn:Et; try (rewrite E1; apply sub_perm_refl).
+  assert (rem_entries tk = skipn (tdone tk) (lf_contents lf ++ contents l ++ contents r)) as Er
+    by (unfold rem_entries; rewrite Et; reflexivity).
+  destruct (Nat.leb_spec (tdone tk) (length (lf_contents lf))).
+  { assert (sub_perm (contents l ++ contents r) (rem_entries tk)) as Hs.
+    { rewrite Er, skipn_app. replace (tdone tk - length (lf_contents lf)) with 0 by lia. cbn [skipn].
+      exists (skipn (tdone tk) (lf_contents lf)). apply Permutation_app_comm. }
+    assert (sub_perm (concat (map contents [l; r])) (rem_entries tk)) as Hs'
+      by (cbn [map concat]; rewrite app_nil_r; exact Hs).
+    destruct l, r; try (rewrite rems_child; exact Hs').
+    rewrite E1. apply sub_perm_refl. }
+  destruct (Nat.ltb_spec (tdone tk) (length (lf_contents lf) + length (contents l))).
+  { rewrite rems_app, rems_child. cbn [map concat]. rewrite app_nil_r.
+    assert (rems [mk l (tanc tk + node_cost lbl lf) (tdone tk - length (lf_contents lf))] =
+            skipn (tdone tk - length (lf_contents lf)) (contents l)) as ->
+      by (unfold rems, rem_entries; cbn; now rewrite app_nil_r).
+    rewrite Er, skipn_app, (skipn_all2 (lf_contents lf)) by lia. cbn [app]. rewrite skipn_app.
+    replace (tdone tk - length (lf_contents lf) - length (contents l)) with 0 by lia. cbn [skipn].
+    apply sub_perm_perm, Permutation_app_comm. }
+  destruct (Nat.eqb_spec (tdone tk) (length (lf_contents lf) + length (contents l))).
+  { rewrite E1. apply sub_perm_refl. }
+  assert (rems [mk r (tanc tk + node_cost lbl lf) (tdone tk - length (lf_contents lf) - length (contents l))] =
+          skipn (tdone tk - length (lf_contents lf) - length (contents l)) (contents r)) as ->
+    by (unfold rems, rem_entries; cbn; now rewrite app_nil_r).
+  rewrite Er, skipn_app, (skipn_all2 (lf_contents lf)) by lia. cbn [app].
+  rewrite skipn_app, (skipn_all2 (contents l)) by lia. apply sub_perm_refl.
+Qed.
+
+Lemma split_pass_rems threads tasks : forall acc,
+  sub_perm (rems (fst (split_pass threads acc tasks))) (rems acc ++ rems tasks).
+Proof.
+  induction tasks as [|tk rest IH]; intros acc; cbn [split_pass].
+  - cbn [fst]. unfold rems at 3. cbn. rewrite app_nil_r. apply sub_perm_refl.
+  - destruct (threads <=? _); cbn [fst]; [rewrite rems_app; apply sub_perm_refl|].
+    eapply sub_perm_trans; [apply IH|]. rewrite rems_app, <- app_assoc. apply sub_perm_app; [apply sub_perm_refl|].
+    change (rems (tk :: rest)) with (rem_entries tk ++ rems rest).
+    apply sub_perm_app; [apply split_rems|apply sub_perm_refl].
+Qed.
+
+Lemma split_tasks_rems threads n : forall ts, sub_perm (rems (split_tasks threads n ts)) (rems ts).
+Proof.
+  induction n as [|n IH]; intros ts; cbn [split_tasks]; [apply sub_perm_refl|].
+  pose proof (split_pass_rems threads ts []) as P. destruct (split_pass threads [] ts) as [ts2 stop].
+  cbn [fst] in P. change (rems [] ++ rems ts) with (rems ts) in P.
+  destruct stop; [assumption|]. eapply sub_perm_trans; [apply IH|assumption].
+Qed.
+
+Lemma emit_rems size ts :
+  Permutation (concat (map (task_run size) ts) ++ rems (filter unfinished (map (advance size) ts))) (rems ts).
+Proof.
+  induction ts as [|tk ts IH]; [reflexivity|]. cbn [map concat filter].
+  change (rems (tk :: ts)) with (rem_entries tk ++ rems ts). rewrite (rem_split size tk).
+  assert (rems (if unfinished (advance size tk) then advance size tk :: filter unfinished (map (advance size) ts)
+                else filter unfinished (map (advance size) ts)) =
+          rem_entries (advance size tk) ++ rems (filter unfinished (map (advance size) ts))) as E.
+  { destruct (unfinished (advance size tk)) eqn:Eu; [reflexivity|].
+    destruct (rem_entries (advance size tk)) eqn:Er; [reflexivity|].
+    assert (unfinished (advance size tk) = true) by (apply unfinished_rem; congruence). congruence. }
+  rewrite E, <- !app_assoc. apply Permutation_app_head.
+  rewrite !app_assoc. etransitivity; [|apply Permutation_app_head; exact IH].
+  rewrite <- !app_assoc. rewrite (app_assoc (concat _)), (app_assoc (rem_entries _)).
+  apply Permutation_app_tail. apply Permutation_app_comm.
+Qed.
+
+Lemma par_rounds_disjoint size threads fuel : forall ts,
+  sub_perm (concat (fst (par_rounds fuel size threads ts))) (rems ts).
+Proof.
+  induction fuel as [|fuel IH]; intros ts; cbn [par_rounds]; [exists (rems ts); reflexivity|].
+  destruct ts as [|tk0 rest] eqn:Ets; [apply sub_perm_refl|]. rewrite <- Ets. clear Ets tk0 rest.
+  set (ts2 := split_tasks threads SPLIT_ITERS ts).
+  specialize (IH (filter unfinished (map (advance size) ts2))).
+  destruct (par_rounds fuel size threads (filter unfinished (map (advance size) ts2))) as [more lft].
+  cbn [fst] in *. rewrite concat_app.
+  eapply sub_perm_trans; [|apply split_tasks_rems]. fold ts2.
+  eapply sub_perm_trans; [|apply sub_perm_perm, (emit_rems size ts2)].
+  apply sub_perm_app; [apply sub_perm_refl|exact IH].
+Qed.
+
+Lemma sorted_nodup l : sorted l -> NoDup l.
+Proof.
+  induction l as [|x l IH]; cbn [sorted]; intros Hs; [constructor|]. destruct Hs as [Hx Hs].
+  constructor; [|auto]. intros Hi. rewrite Forall_forall in Hx. specialize (Hx x Hi).
+  unfold key_lt in Hx. rewrite bytes_cmp_refl in Hx. discriminate.
+Qed.
+
+(* the keys visited by the chunks of the parallel chunker are pairwise distinct
+   pairs of the tree (no key is visited twice) *)
+Theorem par_runs_disjoint_l size threads t :
+  wf t -> NoDup (concat (fst (par_runs size threads t))) /\
+          incl (concat (fst (par_runs size threads t))) (contents t).
+Proof.
+  intros W. unfold par_runs.
+  assert (sub_perm (concat (fst (par_rounds (S (length (contents t))) size threads [mk t 0%N 0]))) (contents t)) as Hs.
+  { eapply sub_perm_trans; [apply par_rounds_disjoint|]. unfold rems, rem_entries. cbn. rewrite app_nil_r.
+    apply sub_perm_refl. }
+  destruct t as [|k v|lbl lf l r]; [cbn; split; [constructor|intros ? []]| |];
+    (split; [eapply sub_perm_nodup; [exact Hs|apply sorted_nodup, contents_sorted; exact W]|]);
+    destruct Hs as [c Hp]; intros e He; eapply Permutation_in; [exact Hp|apply in_or_app; now left|exact Hp|apply in_or_app; now left].
+Qed.
+
+(* each run is a run of consecutive keys of its subtree, in key order *)
+Lemma sorted_skipn n l : sorted l -> sorted (skipn n l).
+Proof. intros Hs. rewrite <- (firstn_skipn n l) in Hs. now apply sorted_app_inv in Hs as (_ & ? & _). Qed.
+Lemma sorted_prefix a b : sorted (a ++ b) -> sorted a.
+Proof. intros Hs. now apply sorted_app_inv in Hs as (? & _). Qed.
+
+Lemma par_rounds_sorted t size threads fuel : wf t -> forall ts,
+  tasks_ok t ts -> Forall sorted (fst (par_rounds fuel size threads ts)).
+Proof.
+  intros W. induction fuel as [|fuel IH]; intros ts Hok; cbn [par_rounds]; [constructor|].
+  destruct ts as [|tk0 rest] eqn:Ets; [constructor|]. rewrite <- Ets in *. clear Ets tk0 rest.
+  destruct (split_tasks_inv H0 t W threads SPLIT_ITERS ts Hok) as [Ok2 _].
+  set (ts2 := split_tasks threads SPLIT_ITERS ts) in *.
+  specialize (IH _ (advance_ok t size ts2 Ok2)).
+  destruct (par_rounds fuel size threads (filter unfinished (map (advance size) ts2))) as [more lft].
+  cbn [fst] in *. apply Forall_app. split; [|assumption].
+  apply Forall_forall. intros run Hin. apply in_map_iff in Hin as (tk & <- & Hin).
+  unfold tasks_ok in Ok2. rewrite Forall_forall in Ok2. specialize (Ok2 _ Hin).
+  destruct (sub_wf _ _ Ok2 [] W) as [q Wq]. pose proof (contents_sorted_at _ _ Wq) as Srt.
+  apply (sorted_prefix _ (rem_entries (advance size tk))). rewrite <- rem_split. now apply sorted_skipn.
+Qed.
+
+Theorem par_runs_sorted_l size threads t : wf t -> Forall sorted (fst (par_runs size threads t)).
+Proof.
+  intros W. unfold par_runs. destruct t as [|k v|lbl lf l r]; [repeat constructor| |];
+    apply (par_rounds_sorted _ size threads _ W); (constructor; [apply sub_refl|constructor]).
+Qed.
